@@ -756,12 +756,50 @@ def r7_11(ctx):
             ctx.bad("R7.11", fi.module, fi.qual, norm(n, 90), f"the multipart subtype follows the parts without a space (`{norm(before, 20) if before is not None else '?'}` in front of it): `(...)(...)\"MIXED\"` is not a body-type-mpart", n.lineno)
 
 
+def _trailing_blank_sites(tree):
+    """f-strings `...SP{' '.join(...)}CRLF...`: the hole may be empty (the list may be), the blank in front of it then ends the
+    line."""
+    out = []
+    for n in ast.walk(tree):
+        if not isinstance(n, ast.JoinedStr):
+            continue
+        parts = merge_consts(fstring_parts(n))
+        for k in range(1, len(parts) - 1):
+            h = parts[k]
+            if isinstance(h, str) or not isinstance(parts[k - 1], str) or not isinstance(parts[k + 1], str):
+                continue
+            if parts[k - 1].endswith(" ") and parts[k + 1].startswith("\r\n") and isinstance(h, ast.Call) and call_name(h) == "join" and isinstance(call_recv(h), ast.Constant):
+                out.append((n, h))
+    return out
+
+
+def r7_12(ctx):
+    """A response line does not end in a blank.  Where the tail of a line is a separator-joined list that may be empty
+    (`* SEARCH` with no hits) the separator belongs to each element, not to the text in front of the list."""
+    p = ctx.p
+    probe = ast.parse("x = f\"* SEARCH {' '.join(str(x) for x in r)}\\r\\n\"")
+    ctx.require(len(_trailing_blank_sites(probe)) == 1, "R7.12 self-test: the detector no longer recognises its own example")
+    n = 0
+    for fi in p.functions.values():
+        if fi.module not in ("client", "mbox", "fetch", "user_server", "server", "pop3_client", "pop3_server"):
+            continue
+        for js, h in _trailing_blank_sites(fi.node):
+            n += 1
+            ctx.analysed(fi)
+            ctx.bad("R7.12", fi.module, fi.qual, norm(js, 80), "the line ends `SP <joined list> CRLF`: with an empty list the response ends in a blank (`* SEARCH ` CRLF is not `\"SEARCH\" *(SP nz-number)`)", js.lineno)
+    if n == 0:
+        sr = p.func("client.Authenticated.do_search")
+        ctx.analysed(sr)
+        ctx.ok("R7.12", where(sr), "no response line is built as `SP <possibly empty joined list> CRLF`")
+
+
 def _run_extra(ctx):
     ctx.do(r7_4b)
     ctx.do(r7_8)
     ctx.do(r7_9)
     ctx.do(r7_10)
     ctx.do(r7_11)
+    ctx.do(r7_12)
 
 
 def run(ctx):
